@@ -69,6 +69,20 @@ func (c combo) opts() []csproto.JSONOption {
 	return o
 }
 
+// overridden spells the same settings as opts() the long way round: first the OPPOSITE of every setting, then every
+// setting explicitly. Options are applied in order, so the later occurrence decides (shared defaults + appended override
+// is how option lists are built in practice); the adapter must behave exactly as with opts().
+func (c combo) overridden() []csproto.JSONOption {
+	other := "\t\t"
+	if c.ind() == other {
+		other = " "
+	}
+	return []csproto.JSONOption{
+		csproto.JSONIndent(other), csproto.JSONUseEnumNumbers(!c.useNum), csproto.JSONIncludeZeroValues(!c.incZero),
+		csproto.JSONIndent(c.ind()), csproto.JSONUseEnumNumbers(c.useNum), csproto.JSONIncludeZeroValues(c.incZero),
+	}
+}
+
 var indents = []string{"", " ", "\t", "    "}
 
 func allCombos() []combo {
@@ -323,6 +337,14 @@ func (c *checker) marshalSide(s *subject, vc vcase) (baseline []byte, baselineOK
 			d["error"] = err.Error()
 			d["owning_runtime_direct_output"] = trunc(ownOut)
 			c.fail("marshal/error-but-owning-runtime-marshals", s, vc, "", d)
+			return nil, false
+		}
+		// the same settings given as "opposite first, then overridden": the last occurrence of an option decides
+		if out2, err2, pan2 := guardB(func() ([]byte, error) { return csproto.JSONMarshaler(src, cb.overridden()...).MarshalJSON() }); pan2 != "" || err2 != nil || !bytes.Equal(out2, out) {
+			d := det(out)
+			d["with_overridden_option_list"] = trunc(out2)
+			d["error"] = fmt.Sprint(err2, " ", pan2)
+			c.fail("marshal/option-given-twice-last-one-does-not-win", s, vc, "", d)
 			return nil, false
 		}
 		// the returned bytes belong to the caller: a later call of the adapter must not change them
@@ -628,6 +650,19 @@ func (c *checker) unmarshalSide(s *subject, vc vcase, baseline []byte) {
 					o.err = err.Error()
 				}
 				results[ui][pi] = o
+				// the same two settings given as "opposite first, then overridden" (last occurrence decides)
+				{
+					x2 := s.fresh()
+					err2, pan2 := guardE(func() error {
+						return csproto.JSONUnmarshaler(x2, csproto.JSONAllowUnknownFields(!allowUnknown), csproto.JSONAllowPartialMessages(!allowPartial),
+							csproto.JSONAllowUnknownFields(allowUnknown), csproto.JSONAllowPartialMessages(allowPartial)).UnmarshalJSON(d.data)
+					})
+					if ok2 := err2 == nil && pan2 == ""; ok2 != o.ok || (pan2 != "") != (pan != "") {
+						c.fail("unmarshal/option-given-twice-last-one-does-not-win", s, vc, docClass+fmt.Sprintf("/unknown=%v,partial=%v", allowUnknown, allowPartial),
+							map[string]any{"document": d.name, "json": trunc(d.data), "AllowUnknownFields": fmt.Sprintf("%v then %v", !allowUnknown, allowUnknown), "AllowPartialMessages": fmt.Sprintf("%v then %v", !allowPartial, allowPartial),
+								"outcome_with_single_options": fmt.Sprint(o.ok, " ", o.err, " ", o.pan), "outcome_with_overridden_options": fmt.Sprint(ok2, " ", err2, " ", pan2)})
+					}
+				}
 				det := map[string]any{"document": d.name, "json": trunc(d.data), "AllowUnknownFields": allowUnknown, "AllowPartialMessages": allowPartial, "error": o.err, "message": describe(s, src)}
 				optName := fmt.Sprintf("unknown=%v,partial=%v", allowUnknown, allowPartial)
 				if pan != "" {
